@@ -550,6 +550,17 @@ def replay(case):
             d["detail"] = "[real Z3 backend] " + d["detail"]
             return d
     d2 = _replay_oracle(case)
+    if case.get("fault") and not d2.get("violated"):
+        # with concrete constants the real code folds differently and makes a different number of backend checks than on the symbolic
+        # run, so the counterexample's check index may denote another operation: the property quantifies over EVERY position of the
+        # failure, so every position is replayed and the first one that reproduces is reported
+        for k in range(0, 40):
+            if str(k) == str(case["vals"].get("fault_at")):
+                continue
+            c2 = dict(case, vals=dict(case["vals"], fault_at=k))
+            d3 = _replay_oracle(c2)
+            if d3.get("violated"):
+                return d3
     return d2
 
 
@@ -595,7 +606,10 @@ def _replay_oracle(case):
             s.add(f)
         if s.check() != z3.sat:
             continue
-        for f in check_log(be, path.result, s, prop):
+        fl = check_log(be, path.result, s, prop)
+        if case.get("fault"):
+            fl = _fault_filter(path.result, fl)
+        for f in fl:
             if f.kind == "unknown":
                 continue
             if f.extra is None or s.check(f.extra) == z3.sat:
